@@ -8,6 +8,7 @@
 //	            every Get/Put as a second, direct detector
 //	CRW       : reader/writer occupancy counters inside RWMutex critical sections under goroutine storms
 //	CConst    : blockSize
+//	CDeqSeq / CChainSeq / CDeqLin / CDeqConst : the ring poolDequeue and the chain poolChain themselves, see deque.go
 //
 // Storms run in child processes (same binary, -extra child:...): a crash of the code under test (fatal error,
 // nil dereference, deadlock watchdog) is reported as a violation instead of killing the harness.
@@ -670,7 +671,7 @@ func main() {
 		return
 	}
 	rng := vhlib.NewRng(o.Seed).Fork()
-	header := "From VF Require Import Common.Base C13.PoolModel C13.PoolHist C13.Check.\n" +
+	header := "From VF Require Import Common.Base C13.PoolModel C13.PoolHist C13.Check.\n" + dqHeader +
 		"Definition e a b w k := {| pinv := a; presp := b; pwho := w; pwhat := k |}.\nLocal Open Scope Z_scope."
 	w := vhlib.NewWriter(o.Out, header, "case", "mismatches", 3)
 	th := o.Thorough()
@@ -819,6 +820,8 @@ func main() {
 		s := scs[si]
 		w.Case(s.term, fmt.Sprintf("pool/sequential(New=%v)", s.hn), s.nt, s.steps, nil)
 	}
+	// ---- the ring and the chain of rings behind the pool's shared / unused chains ----
+	emitDeque(w, rng.Fork(), th, o.Seed)
 	w.Notes["pool_history_events"] = totalEvents
 	w.Notes["hammer_get_put_calls_flag_checked"] = hammerOps
 	w.Notes["forced_gc_cycles"] = totalGC
@@ -827,5 +830,7 @@ func main() {
 	w.Notes["runs_with_bursts_over_256"] = stolenRuns
 	w.Close(o, "pool history: one case = the complete Get/Put history of one syncx.Pool under a goroutine storm (goroutines > Ps, bursts > 256, >= 8 forced GCs, GOMAXPROCS changes), "+
 		"non-trivial always; sequential: one case = one single-P trace of Get/Put bursts with P-local counters, non-trivial when some Get returned an object; "+
-		"rwmutex: one case = the overlap counters of one reader/writer storm; distinct = distinct case text")
+		"rwmutex: one case = the overlap counters of one reader/writer storm; "+
+		"dequeue/chain sequential: one case = a batch of runs (each starts with a reset step) of pushHead/popHead/popTail words on a real ring / chain with results and snapshots, non-trivial when some pop returned a block; "+
+		"concurrent(lin): one case = a batch of recorded rounds (one producer, 1-3 thieves, plus the sequential drain), one step per round; distinct = distinct case text")
 }
